@@ -12,3 +12,9 @@ open Femio.C19
 #print axioms C19_no_future_values
 #print axioms C19_stale_needs_stale_entry
 #print axioms C19_fresh_object_stays_fresh
+open Femio.C19.Stored
+#print axioms C19_failed_query_invisible
+#print axioms C19_partial_table_counterexample
+#print axioms C19_make_positive_drops_table
+#print axioms C19_make_positive_flip_counterexample
+#print axioms C19_stored_options_ignored_counterexample
